@@ -344,6 +344,26 @@ static int do_replay(int argc, char **argv) {
 	fprintf(stderr, "bad replay arguments\n"); return 2;
 }
 
+// One call over more than 4 GiB (the size does not fit in 32 bits) against the same data in pieces of about 1 GiB, per implementation;
+// the piecewise values must also agree between implementations. Zero pages, mapped read-only without reservation.
+static void fam_crc_4g(int thorough) {
+	size_t L = ((size_t)1 << 32) + 100003;
+	uint8_t *z = mmap(NULL, L, PROT_READ, MAP_PRIVATE | MAP_ANONYMOUS | MAP_NORESERVE, -1, 0);
+	if (z == MAP_FAILED) { printf("NOTE 4 GiB CRC message skipped (mmap failed)\n"); h_incomplete = 1; return; }
+	uint32_t p32_first = 0; uint64_t p64_first = 0; int have = 0;
+	for (int m = 0; m < NIMPL; m++) { if (!impl[m].on) continue; if (!thorough && strcmp(impl[m].name, "gen") && strcmp(impl[m].name, "lib")) continue; if (!strcmp(impl[m].name, "small") || !strcmp(impl[m].name, "smallonce")) { if (!thorough) continue; }
+		H_CASE("c14 crc over 4 GiB + 100003 zero bytes impl=%s", impl[m].name);
+		uint32_t one32 = impl[m].f32(z, L, 0), pc32 = 0; uint64_t one64 = impl[m].f64(z, L, 0), pc64 = 0;
+		for (size_t off = 0; off < L; ) { size_t n = ((size_t)1 << 30) + 4099; if (n > L - off) n = L - off; pc32 = impl[m].f32(z + off, n, pc32); pc64 = impl[m].f64(z + off, n, pc64); off += n; H_TICK(); }
+		evals += 2; distinct += 2; n_large += 2;
+		if (one32 != pc32) h_fail("crc32:4GiB-one-call", "impl=%s crc32 of 2^32+100003 zero bytes: one call %08x, pieces of 2^30+4099 %08x", impl[m].name, one32, pc32);
+		if (one64 != pc64) h_fail("crc64:4GiB-one-call", "impl=%s crc64 of 2^32+100003 zero bytes: one call %016llx, pieces %016llx", impl[m].name, (unsigned long long)one64, (unsigned long long)pc64);
+		if (!have) { p32_first = pc32; p64_first = pc64; have = 1; } else { if (pc32 != p32_first) h_fail("crc32:4GiB-implementations-differ", "impl=%s piecewise crc32 %08x, first implementation %08x", impl[m].name, pc32, p32_first); if (pc64 != p64_first) h_fail("crc64:4GiB-implementations-differ", "impl=%s piecewise crc64 differs", impl[m].name); }
+	}
+	if (have) printf("SAMPLE crc32/crc64 over 2^32+100003 zero bytes: one call == pieces, crc32=%08x crc64=%016llx\n", p32_first, (unsigned long long)p64_first);
+	munmap(z, L);
+}
+
 int main(int argc, char **argv) {
 	h_init(); h_crash_extra = crash_extra; cur.im = -1;
 	__builtin_cpu_init();
@@ -387,6 +407,7 @@ int main(int argc, char **argv) {
 	h_fail_printed = 0;
 	if (thorough && !san) { fam_large(large_t, sizeof large_t / sizeof *large_t, shard, nshards); fam_check_large(large_t, sizeof large_t / sizeof *large_t, (shard + 3) % nshards, nshards); }
 	else { fam_large(large_q, sizeof large_q / sizeof *large_q, shard, nshards); fam_check_large(large_q, sizeof large_q / sizeof *large_q, (shard + 3) % nshards, nshards); }
+	if (!san && nshards > 1 && shard == nshards - 2 && !h_expired()) fam_crc_4g(thorough);
 	if (!san && shard == nshards - 1 && !h_expired()) fam_sha_huge();	// about 4 s: the only input whose bit length needs the high word
 
 	printf("STAT evals=%ld distinct=%ld tiny=%ld oneshot=%ld split=%ld check_iface=%ld sha256=%ld large=%ld zero_length=%ld fails=%ld\n",
